@@ -23,6 +23,13 @@ fn as_f64<T: Elt>(m: &Matrix<T>) -> &Matrix<f64> {
     (m as &dyn std::any::Any).downcast_ref::<Matrix<f64>>().unwrap_or_else(|| panic!("harness: norms need elt f64"))
 }
 
+// a fresh matrix with the same shape and entries, built through the public API only (new + index)
+fn rebuild<T: Elt>(m: &Matrix<T>) -> Matrix<T> {
+    let mut r = Matrix::<T>::new(m.rows(), m.cols(), T::zero());
+    for i in 0..m.rows() { for j in 0..m.cols() { r[(i, j)] = m[(i, j)]; } }
+    r
+}
+
 // one step of a history; returns normally or panics (caught by the caller)
 fn step<T: Elt>(m: &mut Matrix<T>, op: &str, a: &mut Args, out: &mut Out) {
     match op {
@@ -90,9 +97,13 @@ fn step<T: Elt>(m: &mut Matrix<T>, op: &str, a: &mut Args, out: &mut Out) {
 pub fn run<T: Elt>(kind: &str, a: &mut Args, out: &mut Out) {
     match kind {
         // mat.hist <M> (<op> <args>)*    after every op: result (if any), P<class> if it panicked, then the state
-        "mat.hist" => {
+        // mat.histeq: the same, and after every state dump the derived PartialEq of the matrix against a freshly
+        // built one with the same shape and entries (i1 / i0): stale or missing raw storage becomes observable
+        "mat.hist" | "mat.histeq" => {
+            let eq = kind == "mat.histeq";
             let mut m = a.m::<T>();
             out.m(&m);
+            if eq { out.boolean(m == rebuild(&m)); }
             while a.more() {
                 let op = a.word();
                 let r = catch_unwind(AssertUnwindSafe(|| step(&mut m, op, a, out)));
@@ -105,6 +116,7 @@ pub fn run<T: Elt>(kind: &str, a: &mut Args, out: &mut Out) {
                 }
                 while a.more() { if a.word() == ";" { break; } }
                 out.m(&m);
+                if eq { out.boolean(m == rebuild(&m)); }
             }
         }
         // norms of functions.rs (impl Matrix<f64> only): norm_1, norm_inf, norm_max, norm_frob
